@@ -92,8 +92,13 @@ class Gen:
 
     def collection(self):
         t, np, dask, da, db = self.tape, self.np, self.dask, self.da, self.db
-        kind = t.draw(6, "ckind")
+        kind = t.draw(7, "ckind")
         self.ncoll += 1
+        if kind == 6:
+            n, p, k = 1 + t.draw(7, "bn"), 1 + t.draw(3, "bp"), t.draw(5, "bk")
+            seq = [i * 3 + k for i in range(n)]
+            self.desc.append(["bag-item", n, p, k])
+            return db.from_sequence(seq, npartitions=p).sum(), sum(seq)
         if kind >= 4:
             # dataframe collections (expression-backed; pyarrow is an import stub here)
             import pandas as pd
@@ -145,8 +150,32 @@ class Gen:
             if t.draw(4, "coll") != 0:
                 return self.collection()
             return self.leaf()
-        kind = t.draw(10, "skind")
+        kind = t.draw(12, "skind")
         n = 1 + t.draw(3, "n")
+        if kind == 10:
+            # dict whose key is, or contains, a (hashable) collection; dict keys are traversed too
+            a, b = t.draw(50, "da"), t.draw(50, "db")
+            d = self.dask.delayed(operator.add)(self.dask.delayed(operator.mul)(a, 2), b)
+            val = a * 2 + b
+            form = t.draw(3, "keyform")
+            x, e = self.node(depth + 1)
+            self.desc.append(["struct", 10, form])
+            self.desc.append(["delayed", a, b])
+            if form == 0:
+                return {d: x}, {val: e}
+            if form == 1:
+                return {(d, "left"): x}, {(val, "left"): e}
+            return {Pair(d, "p"): x}, {Pair(val, "p"): e}
+        if kind == 11:
+            # two collections of different types that share their key: a bag Item and its Delayed
+            n, p, k = 1 + t.draw(7, "bn"), 1 + t.draw(3, "bp"), t.draw(5, "bk")
+            seq = [i * 3 + k for i in range(n)]
+            item = self.db.from_sequence(seq, npartitions=p).sum()
+            d = item.to_delayed()
+            self.desc.append(["struct", 11, n, p, k])
+            if t.draw(2, "twinorder"):
+                return [item, d], [sum(seq), sum(seq)]
+            return (d, item), (sum(seq), sum(seq))
         if kind == 8:
             # a list-subclass leaf alone in a tuple/list, next to a collection
             x, e = self.collection()
@@ -214,7 +243,8 @@ def same(np, a, b):
     if type(a).__name__ in ("DataFrame", "Series") and hasattr(a, "equals"):
         return type(a) is type(b) and a.equals(b)
     if isinstance(a, dict):
-        return list(a.keys()) == list(b.keys()) and all(same(np, a[k], b[k]) for k in a)
+        return len(a) == len(b) and all(same(np, ka, kb) and same(np, va, vb)
+                                        for (ka, va), (kb, vb) in zip(a.items(), b.items()))
     if isinstance(a, (list, tuple)):
         return len(a) == len(b) and all(same(np, x, y) for x, y in zip(a, b))
     if isinstance(a, (set, frozenset)):
@@ -235,6 +265,23 @@ def meta_of(c):
         cols = tuple(getattr(m, "columns", ())) or getattr(m, "name", None)
         return (n, cols, str(getattr(m, "dtypes", getattr(m, "dtype", ""))))
     return (n,)
+
+
+def skeleton(dask, obj):
+    """The nesting of a structure with every collection reduced to (type, metadata)."""
+    if dask.is_dask_collection(obj):
+        return ("coll",) + meta_of(obj)
+    if isinstance(obj, MyList):
+        return ("leaf", "MyList", list(obj))
+    if isinstance(obj, dict):
+        return (type(obj).__name__, [(skeleton(dask, k), skeleton(dask, v)) for k, v in obj.items()])
+    if isinstance(obj, (list, tuple)):
+        return (type(obj).__name__, [skeleton(dask, o) for o in obj])
+    if isinstance(obj, (set, frozenset)):
+        return (type(obj).__name__, sorted(repr(skeleton(dask, o)) for o in obj))
+    if dataclasses.is_dataclass(obj) and not isinstance(obj, type):
+        return (type(obj).__name__, [skeleton(dask, getattr(obj, f.name)) for f in dataclasses.fields(obj)])
+    return ("leaf", repr(obj))
 
 
 def run_one(tape, cfg):
@@ -339,6 +386,12 @@ def run_one(tape, cfg):
             after, _ = unpack_collections(*res, traverse=traverse)
             if len(before) != len(after):
                 out.violate(f"{op}_structure", f"{len(before)} collections in, {len(after)} out", op=op)
+            elif traverse and skeleton(dask, list(res)) != skeleton(dask, list(args)):
+                out.violate(f"{op}_structure", f"{op}{tuple(args)!r} -> {tuple(res)!r}: nesting or collection "
+                                               f"types/metadata differ", op=op)
+            elif not traverse and [skeleton(dask, a) if dask.is_dask_collection(a) else id(a) for a in args] != \
+                    [skeleton(dask, a) if dask.is_dask_collection(a) else id(a) for a in res]:
+                out.violate(f"{op}_structure", f"traverse=False: {op}{tuple(args)!r} -> {tuple(res)!r}", op=op)
             else:
                 for b, a in zip(before, after):
                     if meta_of(b) != meta_of(a):
